@@ -343,3 +343,45 @@ Proof.
   intros sch h t r Hwf Hok Hl. apply list_appendmutable_prog_gen; [exact Hwf|exact Hok|]. intros m _ R.
   destruct (liveb_list _ _ _ Hl) as [->|[l R']]; [reflexivity|congruence].
 Qed.
+
+(* ================================================================== Map.Mutable *)
+Lemma map_mutable_prog_correct : map_mutable_prog_stmt.
+Proof.
+  intros sch h kk t r k Hwf Hok Hop. unfold vp_agrees, vp_canon_step. cbn [vp_step canon_map vm_mutable]. unfold run_view.
+  cbn [step]. destruct t as [s|mm].
+  - cbn [vexec vstep1]. apply vp_res_rel_refl.
+  - cbn [vp_op_okb] in Hop. cbn [vexec vstep1 a_key]. rewrite key_conv_canon. destruct (wt_scalar kk k) eqn:W.
+    + cbn [vexec vstep1 set_key g_key]. unfold on_map, vpanic. destruct (read_map h r) as [mp|] eqn:R; [|apply vp_res_rel_refl].
+      cbn [vexec vstep1 set_look g_look]. destruct mp as [kvs|]; cbn [olist massoc].
+      * destruct (massoc kvs k) as [e|]; [apply vp_res_rel_refl|].
+        cbn [vexec vstep1]. unfold halloc. cbn [set_new g_new g_key]. rewrite Nat.eqb_refl. unfold on_map.
+        rewrite (read_map_app _ _ _ _ R). cbn [vexec vstep1 g_new]. apply vp_res_rel_refl.
+      * cbn [vexec vstep1]. unfold halloc. cbn [set_new g_new g_key]. rewrite Nat.eqb_refl. unfold on_map, vpanic.
+        rewrite (read_map_app _ _ _ _ R). apply vp_res_rel_garbage.
+    + rewrite (str_key_not_wt _ _ W Hop). unfold vpanic. destruct (read_map h r) as [[kvs|]|]; apply vp_res_rel_refl.
+Qed.
+
+(* ================================================================== Map.Range *)
+Lemma range_calls_cut f t : forall m,
+  range_calls f t m = vp_cut_calls f (map (fun kv => (fst kv, elem_to_pval t (snd kv))) m).
+Proof.
+  induction m as [|[k e] m IH]; [reflexivity|]. cbn [range_calls map vp_cut_calls fst snd]. rewrite IH. reflexivity.
+Qed.
+Lemma vp_cut_calls_all l : vp_cut_calls (fun _ _ => true) l = l.
+Proof. induction l as [|c l IH]; [reflexivity|]. cbn [vp_cut_calls]. rewrite IH. reflexivity. Qed.
+
+Lemma map_range_stop_prog_correct : map_range_stop_prog_stmt.
+Proof.
+  intros sch h kk t r f Hwf Hok Hl. unfold run_maprange. cbn [canon_map vm_range]. unfold run_view.
+  cbn [vexec vstep1 step]. destruct (liveb_map _ _ _ _ Hl) as [->|[m R]].
+  - reflexivity.
+  - rewrite (read_map_not_nil _ _ _ R). cbn [vexec vstep1 a_f]. rewrite rctor_eqb_refl, wrap_okb_range_of. cbn [andb].
+    unfold on_map. rewrite R. cbn [vexec set_calls g_calls olist app]. rewrite range_calls_cut. reflexivity.
+Qed.
+
+Lemma map_range_prog_correct : map_range_prog_stmt.
+Proof.
+  intros sch h kk t r Hwf Hok Hl. unfold vp_agrees, vp_canon_step. cbn [vp_step].
+  pose proof (map_range_stop_prog_correct sch h kk t r (fun _ _ => true) Hwf Hok Hl) as X. unfold run_maprange in X. rewrite X.
+  cbn [step]. rewrite vp_cut_calls_all. apply vp_res_rel_refl.
+Qed.
